@@ -39,10 +39,11 @@ def _one(args):
     idle_lines = {int(k): [bytes(x) for x in v] for k, v in (args[9] or {}).items()} if len(args) > 9 and args[9] else None
     wfail = args[10] if len(args) > 10 else 0
     recon = list(args[12]) if len(args) > 12 and args[12] else []
+    boot = [bytes(x) for x in args[13]] if len(args) > 13 and args[13] else None
     return serial_rec.run_direct([bytes(s) for s in stmts], [bytes(a) for a in acks],
                                  status={int(k): [bytes(x) for x in v] for k, v in status.items()}, late_hs=late, lose_at=lose,
                                  slow=slow, mode=mode, lose_idle_after=lose_idle, instant=instant, idle_lines=idle_lines, fail_write_at=wfail,
-                                 reconnect_before=recon)
+                                 reconnect_before=recon, boot_reply=boot)
 
 
 def run_all(specs, par=12):
@@ -57,13 +58,14 @@ def enc(spec):
             "mode": spec[6] if len(spec) > 6 else "serial", "lose_idle": spec[7] if len(spec) > 7 else 0,
             "instant": list(spec[8]) if len(spec) > 8 and spec[8] else [],
             "idle_lines": {str(k): [list(x) for x in v] for k, v in spec[9].items()} if len(spec) > 9 and spec[9] else {},
-            "wfail": spec[10] if len(spec) > 10 else 0, "verbose": bool(spec[11]) if len(spec) > 11 else False, "reconnect": list(spec[12]) if len(spec) > 12 and spec[12] else []}
+            "wfail": spec[10] if len(spec) > 10 else 0, "verbose": bool(spec[11]) if len(spec) > 11 else False, "reconnect": list(spec[12]) if len(spec) > 12 and spec[12] else [],
+            "boot": [list(x) for x in spec[13]] if len(spec) > 13 and spec[13] else []}
 
 
 def dec(d):
     return ([bytes(s) for s in d["stmts"]], [bytes(a) for a in d["acks"]],
             {int(k): [bytes(x) for x in v] for k, v in d["status"].items()}, d["late"], d.get("lose", 0), d.get("slow"), d.get("mode", "serial"), d.get("lose_idle", 0), d.get("instant", []),
-            {int(k): [bytes(x) for x in v] for k, v in d.get("idle_lines", {}).items()}, d.get("wfail", 0), d.get("verbose", False), d.get("reconnect", []))
+            {int(k): [bytes(x) for x in v] for k, v in d.get("idle_lines", {}).items()}, d.get("wfail", 0), d.get("verbose", False), d.get("reconnect", []), [bytes(x) for x in d.get("boot", [])])
 
 
 def project(trace, spec):
@@ -259,7 +261,9 @@ class P(flow.Plan):
             specs.append((stmts, acks, status, rng.random() < 0.15 and not lose and not slow and not idle and not inst and not alarms and not wfail,
                           lose if mode == "serial" else 0, slow, mode, idle, inst, alarms, wfail, i % 5 == 3,     # DEBUG logging on
                           # connect() again on the connected writer before some statement (added after seed C16h)
-                          [rng.randint(1, k)] if i % 6 == 2 and not (lose or slow or idle or inst or alarms or wfail) else []))
+                          [rng.randint(1, k)] if i % 6 == 2 and not (lose or slow or idle or inst or alarms or wfail) else [],
+                          # "all device behaviours": a Grbl controller greets with its banner and then acknowledges the probe
+                          [b"Grbl 1.1h ['$' for help]\n", b"ok\n"] if i % 10 == 7 else []))
         traces = run_all(specs)
         for t in traces:
             t["meta"]["driver"] = "random"
